@@ -113,10 +113,24 @@ def blend(col, case):
         want = np.array([Ts[t] for t in sorted(Ts)])
         # the two joints computed the way a user would: Tt - 23 and Tt in floating point
         joint_lo, joint_hi = C.triple_point_water - 23.0, C.triple_point_water
-        for shape in ("array", "scalar", "0d"):
+        for shape in ("array", "scalar", "0d", "2d", "3d"):
             try:
                 if shape == "array":
                     got = A.e_eq_mixed_mk(arr.copy())
+                elif shape in ("2d", "3d"):
+                    # fields in which every row / plane mixes the three regimes (ice, blend, liquid side by side)
+                    reps = 2 if shape == "2d" else 6
+                    field = np.stack([np.roll(arr, r) for r in range(reps)])
+                    field = field if shape == "2d" else field.reshape(2, 3, len(arr))
+                    got = np.asarray(A.e_eq_mixed_mk(field.copy()))
+                    if got.shape != field.shape:
+                        col.violation("mixed-wrong-shape-" + shape, dict(rep, observed=list(got.shape)))
+                        continue
+                    got = np.stack([np.roll(g, -r) for r, g in enumerate(got.reshape(reps, len(arr)))])
+                    if not all(allclose(g, want, 1e-9) for g in got):
+                        col.violation("mixed-branch-logic-" + shape, dict(rep, expected=want.tolist(), observed=got.tolist()))
+                    col.count(got.size)
+                    continue
                 elif shape == "scalar":
                     got = np.array([A.e_eq_mixed_mk(float(t)) for t in arr])
                 else:
